@@ -27,6 +27,21 @@ def vm(sig, *word_args, ret=0):
     return call_cheat(HEVM, sig, word_args, ret=ret) + ["POP"]
 
 
+FWD = 0x1600
+# forwarder: calldata = flag word ++ cheatcode calldata; calls the cheatcode address with the rest, then reverts iff flag != 0
+FWD_CODE = [32, "CALLDATASIZE", "SUB", "DUP1", 32, 0, "CALLDATACOPY", 0, 0, "DUP3", 0, 0, ("push", HEVM, 20), 0xFFFF, "CALL", "POP", "POP",
+            0, "CALLDATALOAD", "@rv", "JUMPI", "STOP", ":rv", 0, 0, "REVERT"]
+
+
+def vm_via(flag, sig, *word_args, mem=0x300):
+    """the cheatcode is issued by a nested frame (the forwarder), which then returns (flag 0) or reverts (flag 1); leaves the success flag"""
+    toks = [flag, mem, "MSTORE", ("push", int.from_bytes(abi.selector(sig), "big") << 224, 32), mem + 32, "MSTORE"]
+    for i, w in enumerate(word_args):
+        toks += list(w) + [mem + 36 + 32 * i, "MSTORE"]
+    toks += [0, mem + 0x100, 36 + 32 * len(word_args), mem, 0, ("push", FWD, 20), 0xFFFF, "CALL"]
+    return toks
+
+
 def mid_code(keep):
     """calldata word 0 = address to impersonate.  one-shot: prank, call REC2 twice (second is not pranked);
     start/stop: startPrank(a, a+1), call REC2, stopPrank, call REC2"""
@@ -227,6 +242,17 @@ def make_state_case(rng, length):
         r.toks += [32, RET, 0, 0, REC1, 0xFFFF, "STATICCALL", "POP"]  # REC1 in state mode returns its slot 5
         r.mem(RET, 1)
 
+    def issue(sig, *args):
+        # directly, or from a nested frame that returns / reverts afterwards (journaled state is rolled back with the frame, the block
+        # environment is not)
+        how = rng.choice(["direct", "direct", "nested-return", "nested-revert"])
+        if how == "direct":
+            r.toks += vm(sig, *args)
+        else:
+            r.toks += vm_via(1 if how == "nested-revert" else 0, sig, *args)
+            r.top()
+            feats.add("cheatcode-from-" + how + ":" + sig.split("(")[0])
+
     for _ in range(length):
         which = rng.choice(["deal", "deal", "store", "store", "etch", "warp", "roll", "fee", "chainId", "coinbase", "difficulty", "sstore"])
         if which == "deal":
@@ -235,7 +261,7 @@ def make_state_case(rng, length):
             else:
                 who, wn = [("push", rng.choice([ROOT, REC1, EOA1, FRESH]), 20)], "const"
             v, vn = word_operand(rng, 2, big)
-            r.toks += vm("deal(address,uint256)", who, v)
+            issue("deal(address,uint256)", who, v)
             read_balances()
             feats.add(f"deal:{wn}:{'sym' if vn.startswith('cd') else 'const'}")
         elif which == "store":
@@ -247,7 +273,7 @@ def make_state_case(rng, length):
             v, vn = word_operand(rng, 2, big)
             if sn == "sym":
                 v = [4 + 32, "CALLDATALOAD"]
-            r.toks += vm("store(address,bytes32,bytes32)", [("push", who, 20)], slot, v)
+            issue("store(address,bytes32,bytes32)", [("push", who, 20)], slot, v)
             read_slots(slot)
             if sn == "const":
                 read_slots([slot[0] + 1])
@@ -282,11 +308,11 @@ def make_state_case(rng, length):
                 v, vn = addr_operand(rng, 2)
             else:
                 v, vn = word_operand(rng, 2, big if which != "chainId" else [1, 5, 31337, 2**64 - 1])
-            r.toks += vm(sig, v)
+            issue(sig, v)
             read_block()
             feats.add(f"{which}:{'sym' if vn.startswith('cd') else 'const'}")
     rec1_state = [5, "SLOAD", 0, "MSTORE", 32, 0, "RETURN"]
-    contracts = {ROOT: asm(r.finish()), REC1: asm(rec1_state), REC2: asm(REC2_CODE), BLK: asm(BLK_CODE)}
+    contracts = {ROOT: asm(r.finish()), REC1: asm(rec1_state), REC2: asm(REC2_CODE), BLK: asm(BLK_CODE), FWD: asm(FWD_CODE)}
     case = diffcore.Case(contracts, target=ROOT, ncd=ncd, label="state-cheatcodes" + ("-generic" if generic else ""),
                          overrides={"storage_layout": "generic"} if generic else None,
                          slots={ROOT: [0, 1, 2, 5, 6, 7, 8], REC1: [0, 1, 2, 5, 6, 7, 8], REC2: [0, 1, 2, 5, 6, 7, 8]},
